@@ -547,6 +547,52 @@ class FnText:
             n += 1
         return n
 
+    def rewrite_casts(self, mapping):
+        """rule R-cast: `OPERAND as T` -> `FN(OPERAND)` for every T in mapping (T -> FN); OPERAND is the preceding primary
+        expression (a token, or a balanced (...) / [...] group together with the path / method-call chain in front of it)"""
+        n = 0
+        while True:
+            toks = self.toks
+            hit = None
+            for i in range(self.it.open + 1, self.it.close):
+                if toks[i].k == "id" and toks[i].s == "as" and toks[i + 1].k == "id" and toks[i + 1].s in mapping:
+                    j = i - 1
+                    # walk back over one postfix chain: groups, idents, `.`, `::`
+                    def open_of(k):
+                        depth = 0
+                        for m in range(k, self.it.open, -1):
+                            if toks[m].k == "p" and toks[m].s in (")", "]"):
+                                depth += 1
+                            elif toks[m].k == "p" and toks[m].s in ("(", "["):
+                                depth -= 1
+                                if depth == 0:
+                                    return m
+                        raise RsxError("unbalanced cast operand")
+                    start = j
+                    while True:
+                        if toks[start].k == "p" and toks[start].s in (")", "]"):
+                            start = open_of(start)
+                            if toks[start - 1].k == "id" and toks[start - 1].s not in ("as", "in", "if", "while", "match", "return", "let"):
+                                start -= 1
+                            else:
+                                break
+                        if toks[start - 1].k == "p" and toks[start - 1].s in (".", "::") and toks[start - 2].k in ("id", "num") :
+                            start -= 2
+                            continue
+                        if toks[start - 1].k == "p" and toks[start - 1].s in (".", "::") and toks[start - 2].s in (")", "]"):
+                            start -= 2
+                            continue
+                        break
+                    hit = (toks[start].a, toks[j].b, toks[i + 1].b, mapping[toks[i + 1].s])
+                    break
+            if hit is None:
+                break
+            a, b, e, fn = hit
+            self.text = self.text[:a] + fn + "(" + self.text[a:b] + ")" + self.text[e:]
+            self._scan()
+            n += 1
+        return n
+
     def strip_cfg_blocks(self, cfg_regex):
         """remove `#[cfg(..)] { ... }` statement blocks -- rule R8.  Refuses if the
         block assigns to anything (contains `=` that is not `==`,`<=`,`>=`,`!=`,`=>` outside a `let`)."""
